@@ -95,10 +95,12 @@ inline std::string run_signal_history(vf::rng &r, std::string &trace, int &ops) 
         bool in_coro = r.chance(1, 3);
         auto call = [&](auto &&fn) { if (in_coro) cocls::coro_queue::install_queue_and_call(fn); else fn(); };
         if (in_coro) trace += "[coroutine mode] ";
+        if (!use_void && !col && !col2) col.emplace(sig->get_collector()); // every collector was dropped, the signal object still connects
+        auto &C1 = col ? col : col2; auto &C2 = col2 ? col2 : col;
         if (use_void) { trace += "emit() "; call([&] { (*vcol)(); }); }
-        else if (form == 0) { trace += "emit(value) "; call([&] { (*col)((long)v); }); }
-        else if (form == 1) { trace += "emit(rvalue) "; call([&] { int tmp = v; (*col)(std::move(tmp)); }); }
-        else { trace += "emit(lvalue) "; lvalue_store = v; call([&] { (*(col2 ? col2 : col))(lvalue_store); }); }
+        else if (form == 0) { trace += "emit(value) "; call([&] { (*C1)((long)v); }); }
+        else if (form == 1) { trace += "emit(rvalue) "; call([&] { int tmp = v; (*C1)(std::move(tmp)); }); }
+        else { trace += "emit(lvalue) "; lvalue_store = v; call([&] { (*C2)(lvalue_store); }); }
         check_all("emit");
         for (size_t i = 0; i < L.size() && i < 64 && err.empty(); i++) {
             sl_rec &l = L[i];
@@ -138,8 +140,24 @@ inline std::string run_signal_history(vf::rng &r, std::string &trace, int &ops) 
             }
             check_all("listener-returns");
         } else if (x < 80 && connected) emit((int)r.below(3));
-        else if (x < 86 && connected && !use_void && !col2) { trace += "collector-copy "; col2.emplace(*col); }
-        else if (x < 90 && connected && !use_void && col2) { trace += "signal-from-collector "; cocls::signal<int> s2 = *col2; (void)s2; }
+        else if (x < 86 && connected && !use_void && !col2) { trace += "collector-copy "; if (col) col2.emplace(*col); else col2.emplace(sig->get_collector()); }
+        else if (x < 88 && connected && !use_void && col2) { trace += "signal-from-collector "; cocls::signal<int> s2 = *col2; (void)s2; }
+        else if (x < 90 && connected && !use_void) { // give up ONE of several strong handles (or move / assign collectors): still connected, nobody may be cancelled
+            int nh = (sig ? 1 : 0) + (col ? 1 : 0) + (col2 ? 1 : 0);
+            uint32_t w = r.below(4);
+            if (w == 0 && col && col2) { trace += "collector-move-assign "; *col = std::move(*col2); col2.reset(); }
+            else if (w == 1 && col && col2) { trace += "collector-copy-assign "; *col2 = *col; }
+            else if (nh >= 2) {
+                if (sig && (w == 2 || !col)) { trace += "drop-signal-object "; sig.reset(); }
+                else if (col) { trace += "drop-collector "; col.reset(); }
+                else if (col2) { trace += "drop-collector-copy "; col2.reset(); }
+            }
+            for (size_t i = 0; i < L.size() && err.empty(); i++) if (L[i].canceled) { if (L[i].waiting) err = "listener #" + std::to_string(i) + " was cancelled although a collector / signal handle still exists (disconnected too early)"; }
+            if (!sig && err.empty()) { // listeners are created from the signal object: re-create it from a collector (documented conversion)
+                auto &C = col ? col : col2; sig.emplace(cocls::signal<int>(*C));
+            }
+            check_all("handle shuffle");
+        }
         else if (x < 96 && connected) { // drop every handle: disconnect
             trace += "disconnect ";
             connected = false;
